@@ -255,14 +255,12 @@ def to_meshio(mesh,
     cells = {mtype: t.T}
 
     if encode_cell_data:
-        if cell_data is None:
-            cell_data = {}
-        cell_data.update(mesh._encode_cell_data())
+        cell_data = {**({} if cell_data is None else cell_data),
+                     **mesh._encode_cell_data()}
 
     if encode_point_data:
-        if point_data is None:
-            point_data = {}
-        point_data.update(mesh._encode_point_data())
+        point_data = {**({} if point_data is None else point_data),
+                      **mesh._encode_point_data()}
 
     mio = meshio.Mesh(
         mesh.p.T,
